@@ -773,6 +773,7 @@ type funcSig struct {
 	calls   []string // names of the functions and methods the body calls (syntactic)
 	loops   int      // for / range statements in the body (function literals included)
 	nest    string   // their nesting: "L" per loop, children in parentheses, e.g. "L(L)L"
+	carried []string // names of variables assigned (=, op=, ++) inside a loop body: what the loops carry around
 }
 
 // structFields: struct type name -> field name -> type, of the package last scanned by scanPackage (used by the
@@ -904,6 +905,37 @@ func scanPackage(dir string) (map[string]*funcSig, []importSpec, error) {
 					}
 					return true
 				})
+				carried := map[string]bool{}
+				ast.Inspect(fd.Body, func(x ast.Node) bool {
+					var body *ast.BlockStmt
+					switch l := x.(type) {
+					case *ast.ForStmt:
+						body = l.Body
+					case *ast.RangeStmt:
+						body = l.Body
+					}
+					if body != nil {
+						ast.Inspect(body, func(y ast.Node) bool {
+							switch a := y.(type) {
+							case *ast.AssignStmt:
+								if a.Tok != token.DEFINE {
+									for _, l := range a.Lhs {
+										if id, ok := l.(*ast.Ident); ok && id.Name != "_" {
+											carried[id.Name] = true
+										}
+									}
+								}
+							case *ast.IncDecStmt:
+								if id, ok := a.X.(*ast.Ident); ok {
+									carried[id.Name] = true
+								}
+							}
+							return true
+						})
+					}
+					return true
+				})
+				sigs[key].carried = sortedKeysB(carried)
 				var nest func(n ast.Node) string
 				nest = func(n ast.Node) string {
 					out := ""
@@ -1452,4 +1484,13 @@ func (cs *ContractSet) resolve(e *Engine) {
 		}
 		e.externs[ec.Key] = ec
 	}
+}
+
+func sortedKeysB(m map[string]bool) []string {
+	var out []string
+	for k := range m {
+		out = append(out, k)
+	}
+	sort.Strings(out)
+	return out
 }
